@@ -307,15 +307,34 @@ def _elementwise_index_delete(fi, site):
 
 
 def _walking_index(fi, sub):
-  """The index name when `sub` is X[i] (or X[i +/- c]) and i is re-assigned inside a loop that encloses the read."""
-  names = [n.id for n in ast.walk(sub.slice) if isinstance(n, ast.Name)]
-  if isinstance(sub.slice, ast.Slice) or not names:
+  """The index name when `sub` is X[i] and i walks X's *own* positions: a For target over range(len(X)) / enumerate(X) (possibly
+  reversed), or a counter started from len(X) / a constant and stepped by a constant inside an enclosing While.  An index taken from
+  the positions of another list (say, of a sorted copy) is not such a walk: X[i] then reads a privileged position of X."""
+  if not isinstance(sub.slice, ast.Name):
     return None
+  name = sub.slice.id
+  cont = norm_text(sub.value)
+
+  def own_len(e):
+    return any(isinstance(c, ast.Call) and isinstance(c.func, ast.Name) and c.func.id == 'len' and len(c.args) == 1 and norm_text(c.args[0]) == cont for c in ast.walk(e))
+
   for lp in U.enclosing_loops(fi.node, sub):
-    stored = set(n.id for n in ast.walk(lp) if isinstance(n, ast.Name) and isinstance(n.ctx, ast.Store))
-    hit = [n for n in names if n in stored]
-    if hit:
-      return hit[0]
+    if isinstance(lp, ast.For):
+      it = lp.iter
+      if isinstance(it, ast.Call) and isinstance(it.func, ast.Name) and it.func.id == 'reversed' and len(it.args) == 1:
+        it = it.args[0]
+      if isinstance(lp.target, ast.Name) and lp.target.id == name and isinstance(it, ast.Call) and isinstance(it.func, ast.Name) and it.func.id == 'range' and own_len(it):
+        return name
+      if isinstance(lp.target, ast.Tuple) and lp.target.elts and isinstance(lp.target.elts[0], ast.Name) and lp.target.elts[0].id == name and \
+          isinstance(it, ast.Call) and isinstance(it.func, ast.Name) and it.func.id == 'enumerate' and it.args and norm_text(it.args[0]) == cont:
+        return name
+    elif isinstance(lp, ast.While):
+      steps = [st for st in ast.walk(lp) if isinstance(st, ast.AugAssign) and isinstance(st.target, ast.Name) and st.target.id == name]
+      others = [st for st in ast.walk(lp) if isinstance(st, ast.Assign) and any(isinstance(t, ast.Name) and t.id == name for t in st.targets)]
+      if steps and not others and all(isinstance(st.op, (ast.Add, ast.Sub)) and isinstance(U.const_value(st.value), int) for st in steps):
+        init = U.reaching_def(fi.node, name, lp)
+        if init is not None and (own_len(init) or isinstance(U.const_value(init), int)):
+          return name
   return None
 
 
